@@ -4,7 +4,7 @@ ID=$1; M=$2; BASE=${SEEDBASE:-/tmp/seed}; TAG=${SEEDTAG:-}; SRC=$BASE/$ID/out/$M
 WT=/tmp/confirm/wt_${ID}_$TAG$M; RES=/tmp/confirm/${ID}_$TAG$M.result
 rm -rf $WT; git -C /repo worktree add --detach $WT HEAD >/dev/null 2>&1 || { echo "worktree failed" > $RES; exit 1; }
 cd $WT
-run_demo() { if grep -q "^def test_\|import pytest" $SRC/demo.py && ! grep -q "__main__" $SRC/demo.py; then env ${ID}_ROOT=$WT JOBLIB_SRC=$WT JOBLIB_WT=$WT JOBLIB_TREE=$WT PYTHONPATH=$WT timeout 300 /venv/bin/python -m pytest -q -p no:cacheprovider $SRC/demo.py >/tmp/confirm/${ID}_$TAG$M.demo_$1.log 2>&1; else env ${ID}_ROOT=$WT JOBLIB_SRC=$WT JOBLIB_WT=$WT JOBLIB_TREE=$WT PYTHONPATH=$WT timeout 300 /venv/bin/python $SRC/demo.py >/tmp/confirm/${ID}_$TAG$M.demo_$1.log 2>&1; fi; echo $?; }
+run_demo() { if grep -q "^def test_\|import pytest" $SRC/demo.py && ! grep -q "__main__" $SRC/demo.py; then env ${ID}_ROOT=$WT JOBLIB_PATH=$WT JOBLIB_ROOT=$WT JOBLIB_UNDER_TEST=$WT JOBLIB_SRC=$WT JOBLIB_WT=$WT JOBLIB_TREE=$WT PYTHONPATH=$WT timeout 300 /venv/bin/python -m pytest -q -p no:cacheprovider $SRC/demo.py >/tmp/confirm/${ID}_$TAG$M.demo_$1.log 2>&1; else env ${ID}_ROOT=$WT JOBLIB_PATH=$WT JOBLIB_ROOT=$WT JOBLIB_UNDER_TEST=$WT JOBLIB_SRC=$WT JOBLIB_WT=$WT JOBLIB_TREE=$WT PYTHONPATH=$WT timeout 300 /venv/bin/python $SRC/demo.py >/tmp/confirm/${ID}_$TAG$M.demo_$1.log 2>&1; fi; echo $?; }
 A=$(run_demo clean)
 git apply $SRC/patch.diff 2>/tmp/confirm/${ID}_$TAG$M.apply.log || patch -p1 -s < $SRC/patch.diff >>/tmp/confirm/${ID}_$TAG$M.apply.log 2>&1 || { echo "apply failed" > $RES; git -C /repo worktree remove --force $WT; exit 1; }
 B=$(run_demo bug)
